@@ -128,15 +128,12 @@ theorem body_completes_when_granted (side : Side) (sched : List Label) (hw : ∀
 
 -- non-vacuity: a schedule with two streams, a window of 0, shrinking and growing SETTINGS, all labels well-formed,
 -- the peer conformant; the first body is blocked by its stream window (0), later by the connection window
-def demo : List Label :=
-  [.setInit 0, .openStream 70000, .send 0, .wuStream 0 20000, .send 0, .send 0, .setMaxFrame 32768, .setInit 30000,
-   .openStream 10, .send 1, .send 0, .send 0, .wuStream 0 20000, .send 0, .send 0, .wuConn 100000, .send 0, .send 0]
-example : (∀ l ∈ demo, l.wf = true) := by decide
-example : (peerOf (run (St.initial .client) demo).trace).conformant = true := by decide
-example : (run (St.initial .client) demo).trace =
+example : (∀ l ∈ demoSchedule, l.wf = true) := by decide
+example : (peerOf (run (St.initial .client) demoSchedule).trace).conformant = true := by decide
+example : (run (St.initial .client) demoSchedule).trace =
     [.sInit 0, .opened, .wuS 0 20000, .data 0 [16384], .data 0 [3616], .sMax 32768, .sInit 30000, .opened, .data 1 [10],
      .data 0 [16384, 13616], .wuS 0 20000, .data 0 [15525], .wuC 100000, .data 0 [4475]] := by decide
-example : ((run (St.initial .client) demo).strm 0).rem = 0 ∧ (run (St.initial .client) demo).cn = 95525 := by decide
+example : ((run (St.initial .client) demoSchedule).strm 0).rem = 0 ∧ (run (St.initial .client) demoSchedule).cn = 95525 := by decide
 -- a peer that overflows the connection window gets a connection error, after which nothing is sent
 example : (run (St.initial .server) [.openStream 5, .wuConn 2147483647, .send 0]).trace =
     [.opened, .wuC 2147483647, .connError] := by decide
@@ -234,10 +231,6 @@ example : MosnVerif.Lemmas.HpackWire.NoHuff [0xff, 0xfe, 0x00] := by
   constructor <;> decide
 
 -- non-vacuity: repeated and sensitive fields, an entry evicted by a shrink, two size updates opening a block
-def demoOps : List Op :=
-  [.block [⟨[120, 45, 97], [49], false⟩, ⟨[120, 45, 97], [49], false⟩, ⟨[120, 45, 98], [50], true⟩],
-   .setSize 40, .setSize 4096,
-   .block [⟨[120, 45, 97], [49], false⟩, ⟨[58, 109, 101, 116, 104, 111, 100], [71, 69, 84], false⟩]]
 example : (planBlock Enc.new [⟨[120, 45, 97], [49], false⟩, ⟨[120, 45, 97], [49], false⟩]).2 =
     [.literal .incremental 0 [120, 45, 97] [49], .indexed 62] := by decide +kernel
 example : (match runOps Enc.new (Dec.new 4096) demoOps with
